@@ -62,6 +62,39 @@ fn natural(s: &str) -> Option<String> {
     }
 }
 
+/// Another spelling of the same symbol: one hex escape re-written with upper-case digits and a leading
+/// zero (\x3b; -> \x03B;), or, for a name that needs no escape, one of its characters written as a hex
+/// escape. R7RS gives both spellings the same name. None if the reader does not take the result for one
+/// identifier.
+fn alternative_spelling(sp: &str, rng: &mut Rng) -> Option<String> {
+    let alt = if let Some(i) = sp.find("\\x") {
+        let j = sp[i..].find(';')? + i;
+        let hex = &sp[i + 2..j];
+        if hex.is_empty() || !hex.chars().all(|c| c.is_ascii_hexdigit()) {
+            return None;
+        }
+        format!("{}\\x0{};{}", &sp[..i], hex.to_ascii_uppercase(), &sp[j + 1..])
+    } else if !sp.contains('\\') && !sp.is_empty() {
+        let chars: Vec<char> = sp.chars().collect();
+        let k = rng.usize(chars.len());
+        let mut out = String::new();
+        for (n, c) in chars.iter().enumerate() {
+            if n == k {
+                out.push_str(&format!("\\x{:X};", *c as u32));
+            } else {
+                out.push(*c);
+            }
+        }
+        out
+    } else {
+        return None;
+    };
+    match catch(|| parse::parse_text(&alt)) {
+        Ok(Ok((Cell::Symbol(t), None))) if t == alt => Some(alt),
+        _ => None,
+    }
+}
+
 const ROUTES: [&str; 8] = ["literal", "quoted-list-element", "quoted-vector-element", "string->symbol", "macro-output", "eval-quoted", "string->symbol-of-computed-string", "quasiquote-element"];
 
 /// (setup forms, expression) producing the symbol named `s` by route `r`; None if the route needs a
@@ -163,6 +196,17 @@ pub fn run(ctx: &Ctx, rep: &mut Report) {
         let sp1 = natural(&s1).or_else(|| spelling(&mut vm, &s1));
         let sp2 = natural(&s2).or_else(|| spelling(&mut vm, &s2));
         rep.count(if natural(&s1).is_some() { "names_with_natural_literal_spelling" } else { "names_needing_escaped_spelling" }, 1);
+        // one case in three writes the literals of the first name with another spelling of the same name
+        let sp1 = match (&sp1, rng.chance(1, 3)) {
+            (Some(sp), true) => match alternative_spelling(sp, &mut rng) {
+                Some(a) => {
+                    rep.count("literals_written_with_an_alternative_escape", 1);
+                    Some(a)
+                }
+                None => sp1,
+            },
+            _ => sp1,
+        };
         let wit = Json::obj().set("name1", s1.as_str()).set("name2", s2.as_str()).set("spelling1", sp1.clone().unwrap_or_default()).set("spelling2", sp2.clone().unwrap_or_default());
         let id = (ctx.shard, index);
         let cls = name_class(&s1);
